@@ -33,6 +33,7 @@ CONSTANTS DBs, RPs, Msts, Users, Hosts, SqlHosts,
           RepNs,      \* replica numbers offered
           Times,      \* timestamps offered to CreateShardGroup
           MinT, MaxT, \* smallest / largest legal timestamp
+          WrapT,      \* what an instant before MinT becomes when it is written as int64 nanoseconds
           Engines,    \* engine kinds offered
           MaxGroups,  \* bound on shard groups per policy (<= 11: sort.Sort is an insertion sort up to 12)
           MaxVer,     \* bound on measurement versions
@@ -69,6 +70,7 @@ InitCat == [nodes |-> <<>>,           \* DataNodes [id, host, conn]
             maxNode |-> 0, maxConn |-> 0, ptNum |-> 0,
             ptv |-> [d \in DBs |-> <<>>],   \* PtView[db]: <<[owner, rg]>>, position = pt id + 1
             rgs |-> [d \in DBs |-> <<>>],   \* ReplicaGroups[db]: <<[id, master, peers, st]>>
+            rgmap |-> FALSE,          \* implementation detail: the ReplicaGroups map has been allocated (expandDBRG)
             dbs |-> [d \in DBs |-> NoDb],
             users |-> <<>>,           \* [n, admin, privs: [DBs -> 0..3]]
             maxSG |-> 0, maxSh |-> 0, maxMst |-> 0, maxIG |-> 0, maxIdx |-> 0,
@@ -81,6 +83,10 @@ Fail(c, e) == [c |-> c, r |-> e, new |-> {}]
 
 Trunc(t, d) == (t \div d) * d
 ClipEnd(e)  == IF e > MaxT + 1 THEN MaxT + 1 ELSE e
+\* Design: a group never starts before the smallest timestamp (as its end is cut at the largest + 1).
+\* As implemented ("far_past_start_wraps"): the start is the plain window start, which for the window
+\* holding MinT is not representable in int64 nanoseconds - the snapshot encoding wraps it around.
+ClipStart(s, dv) == IF s < MinT /\ "far_past_start_wraps" \notin dv THEN MinT ELSE s
 
 \* sort.Sort(ShardGroupInfos) / IndexGroupInfos: by end, then start; appending one element to a sorted
 \* slice of <= 12 elements and sorting is a stable insertion
@@ -180,7 +186,7 @@ CreateDbPtView(c, db, k) ==
   ELSE LET pv == [i \in 1..c.ptNum |-> [owner |-> c.nodes[((i - 1) % Len(c.nodes)) + 1].id, rg |-> 0]]
        IN IF k > 1
           THEN LET x == ChooseAll(c.nodes, 1, c.rgs[db], pv, k)
-               IN Ok([c EXCEPT !.ptv[db] = x.ptv, !.rgs[db] = x.rgs], {})
+               IN Ok([c EXCEPT !.ptv[db] = x.ptv, !.rgs[db] = x.rgs, !.rgmap = TRUE], {})
           ELSE Ok([c EXCEPT !.ptv[db] = pv], {})
 
 \* ApplyUpdateReplication -> Data.UpdateReplication (rg = 0-based position)
@@ -317,14 +323,14 @@ CreateShardGroup(c, db, rpx, t, eng, dv) ==
           cand == {i \in 1..Len(R.igs) : R.igs[i].eng = eng /\ R.igs[i].s <= t /\ t < R.igs[i].e}
           ip   == IF cand = {} THEN 0 ELSE Max(cand)
           reuse == ip > 0 /\ Len(R.igs[ip].idxs) >= pn
-          is0  == Trunc(t, R.igd)
-          nig  == [id |-> c.maxIG + 1, s |-> is0, e |-> ClipEnd(is0 + R.igd), eng |-> eng,
+          is0  == ClipStart(Trunc(t, R.igd), dv)
+          nig  == [id |-> c.maxIG + 1, s |-> is0, e |-> ClipEnd(Trunc(t, R.igd) + R.igd), eng |-> eng,
                    idxs |-> [i \in 1..pn |-> c.maxIdx + i]]
           ig   == IF reuse THEN R.igs[ip] ELSE nig
           igs2 == IF reuse THEN R.igs ELSE InsSorted(R.igs, nig)
           \* shard group: the window of the CURRENT duration around t ...
-          s0   == Trunc(t, R.sgd)
-          e0   == ClipEnd(s0 + R.sgd)
+          s0   == ClipStart(Trunc(t, R.sgd), dv)
+          e0   == ClipEnd(Trunc(t, R.sgd) + R.sgd)
           \* ... clipped to its live neighbours (they differ from the window only after a duration change).
           \* As implemented ("groups_not_clipped"): the whole window.
           clip == "groups_not_clipped" \notin dv
@@ -472,8 +478,10 @@ AllCmds(c) == UNION {CmdsOf(op, c) : op \in Ops \ {"Snapshot"}}
 CmdChoices == AllCmds(cat)
 
 \* handlers_process.createDatabase: a CreateDatabase command is proposed only after the database's
-\* partition view was created by a CreateDbPtView command
-Protocol(c, cmd) == cmd.op = "CreateDatabase" => c.ptv[cmd.db] # <<>>
+\* partition view (and, with ReplicaNum > 1, its replica groups) was created by a CreateDbPtView command
+\* carrying the same ReplicaNum
+Protocol(c, cmd) == cmd.op = "CreateDatabase" =>
+                       (c.ptv[cmd.db] # <<>> /\ ((cmd.l[1] > 1) <=> (c.rgs[cmd.db] # <<>>)))
 
 -----------------------------------------------------------------------------
 \* what a snapshot carries. Design: the clone taken by FSM.Snapshot is the state at that moment and
@@ -483,13 +491,23 @@ ZeroIds(c) == [c EXCEPT !.dbs = [d \in DBs |-> [c.dbs[d] EXCEPT !.rps = [r \in R
                    [c.dbs[d].rps[r] EXCEPT !.ms = {[x EXCEPT !.id = 0] : x \in @}]]]]]
 Image(s, live, dv) ==
   LET s1 == IF "clone_drops_mst_id" \in dv THEN ZeroIds(s) ELSE s
-      s2 == IF "clone_shares_replica_groups" \in dv THEN [s1 EXCEPT !.rgs = live.rgs] ELSE s1
+      \* Clone copies the map header: shared with the live catalogue if the map existed at Snapshot time
+      s2 == IF "clone_shares_replica_groups" \in dv /\ s.rgmap THEN [s1 EXCEPT !.rgs = live.rgs] ELSE s1
       s3 == IF "clone_shares_sql_nodes" \in dv
             THEN [s2 EXCEPT !.sql = [i \in 1..Len(s.sql) |-> live.sql[i]]] ELSE s2
       s4 == IF "snapshot_omits_maxshardid" \in dv THEN [s3 EXCEPT !.maxSh = 0] ELSE s3
       s5 == IF "snapshot_omits_privileges" \in dv
             THEN [s4 EXCEPT !.users = [i \in 1..Len(@) |-> [@[i] EXCEPT !.privs = [d \in DBs |-> 0]]]] ELSE s4
-  IN s5
+      Wr(seq) == [i \in 1..Len(seq) |-> IF seq[i].s < MinT THEN [seq[i] EXCEPT !.s = WrapT] ELSE seq[i]]
+      s6 == IF "far_past_start_wraps" \in dv
+            THEN [s5 EXCEPT !.dbs = [d \in DBs |-> [s5.dbs[d] EXCEPT !.rps = [r \in RPs |->
+                     [s5.dbs[d].rps[r] EXCEPT !.sgs = Wr(@), !.igs = Wr(@)]]]]]
+            ELSE s5
+  \* Data.Unmarshal allocates the ReplicaGroups map only if the image carries an entry
+  IN [s6 EXCEPT !.rgmap = \E d \in DBs : s6.rgs[d] # <<>>]
+
+\* rgmap is not part of the catalogue's value
+Norm(c) == [c EXCEPT !.rgmap = FALSE]
 
 NoSnap == [ph |-> "none", c |-> InitCat, ci |-> InitCat, img |-> InitCat, imgi |-> InitCat, tail |-> <<>>]
 
@@ -510,7 +528,7 @@ HE(a, args, exp, st, alt, b, bi, x) ==
 
 Entry(cmd, r, ri, b, bi) ==
   IF Track
-  THEN HE(cmd.op, cmd, r.r, r.c,
+  THEN HE(cmd.op, cmd, r.r, IF hist # <<>> /\ r.c = cat THEN 0 ELSE r.c,     \* 0 = unchanged
           IF ri = r THEN <<>> ELSE <<[exp |-> ri.r, st |-> ri.c, fired |-> Fired(cmd, r, ri)]>>,
           b, bi, <<>>)
   ELSE [a |-> cmd.op]
@@ -534,11 +552,11 @@ Do(cmd) ==
              /\ catB' = b
              /\ catBI' = bi
              /\ hist' = Append(hist, Entry(cmd, r, ri,
-                                 IF sn.ph = "restored" /\ b # r.c THEN <<b>> ELSE <<>>,
-                                 IF sn.ph = "restored" /\ bi # ri.c THEN <<bi>> ELSE <<>>))
+                                 IF sn.ph = "restored" /\ Norm(b) # Norm(r.c) THEN <<b>> ELSE <<>>,
+                                 IF sn.ph = "restored" /\ Norm(bi) # Norm(ri.c) THEN <<bi>> ELSE <<>>))
 
 Marker(a, n, b, bi, x) ==
-  IF Track THEN HE(a, Cmd(a, "", "", "", n, 0, <<>>), "ok", cat,
+  IF Track THEN HE(a, Cmd(a, "", "", "", n, 0, <<>>), "ok", IF hist # <<>> THEN 0 ELSE cat,
                    IF catI = cat THEN <<>> ELSE <<[exp |-> "ok", st |-> catI, fired |-> {}]>>, b, bi, x)
   ELSE [a |-> a]
 
@@ -565,7 +583,7 @@ Restore ==
        /\ catB' = b
        /\ catBI' = bi
        /\ hist' = Append(hist, Marker("Restore", Len(sn.tail),
-                                      IF b # cat THEN <<b>> ELSE <<>>, IF bi # catI THEN <<bi>> ELSE <<>>,
+                                      IF Norm(b) # Norm(cat) THEN <<b>> ELSE <<>>, IF Norm(bi) # Norm(catI) THEN <<bi>> ELSE <<>>,
                                       <<[snap |-> sn.c, img |-> sn.img,
                                          imgi |-> IF sn.imgi = sn.img THEN <<>> ELSE <<sn.imgi>>]>>))
   /\ sn' = [sn EXCEPT !.ph = "restored"]
@@ -590,9 +608,11 @@ RpsOf(c) == {x \in DBs \X RPs : c.dbs[x[1]].rps[x[2]].ex}
 RpAt(c, x) == c.dbs[x[1]].rps[x[2]]
 
 \* within a policy and engine kind the live shard groups cover pairwise disjoint spans, each inside one
-\* window of the duration it was created with; the slice is sorted by (end, start)
+\* window of the duration it was created with and inside the legal time range; the slice is sorted by
+\* (end, start)
 GroupsOK(R) ==
   /\ \A i \in 1..Len(R.sgs) : /\ R.sgs[i].s < R.sgs[i].e
+                               /\ MinT <= R.sgs[i].s /\ R.sgs[i].e <= MaxT + 1
                                /\ Trunc(R.sgs[i].s, R.sgs[i].d) = Trunc(R.sgs[i].e - 1, R.sgs[i].d)
   /\ \A i, j \in 1..Len(R.sgs) : i < j => ~LessG(R.sgs[j], R.sgs[i])
   /\ \A i, j \in 1..Len(R.sgs) :
@@ -641,10 +661,10 @@ NoPanic == ~flags.panic
 
 \* ---- C15 ------------------------------------------------------------------
 \* what Persist writes is the catalogue at the moment of Snapshot
-SnapshotPointInTime == sn.ph \in {"persisted", "restored"} => sn.img = sn.c
+SnapshotPointInTime == sn.ph \in {"persisted", "restored"} => Norm(sn.img) = Norm(sn.c)
 \* restoring the snapshot and applying the remaining commands reaches the state of the node that applied
 \* everything
-SnapshotComplete == sn.ph = "restored" => catB = cat
+SnapshotComplete == sn.ph = "restored" => Norm(catB) = Norm(cat)
 
 TypeOK == /\ cat.ptNum = Len(cat.nodes)
           /\ cat.maxSG >= 0 /\ cat.maxSh >= 0
